@@ -80,7 +80,7 @@ func checkABCI(r *RunCtx, rec *BlockRecord) {
 		if p.pi != nil {
 			site := panicSite(p.pi)
 			r.Violate("C20", "abci_panic", map[string]string{"phase": p.phase, "site": site}, "%s panicked at height %d: %s", p.phase, rec.Height, p.pi.Value)
-			if strings.Contains(site, "feemarket") || strings.Contains(site, "CalcBaseFee") {
+			if strings.Contains(p.pi.Stack, "x/feemarket/keeper.Keeper.EndBlock") || strings.Contains(p.pi.Stack, "x/feemarket/keeper.Keeper.CalculateBaseFee") {
 				r.Violate("C09", "basefee_computation_failed", map[string]string{"site": site}, "end-of-block base fee computation panicked: %s", p.pi.Value)
 			}
 		} else if p.err != nil {
